@@ -14,8 +14,9 @@
 //!   `replay-private-repo-not-in-storage` (residual: the node cannot know), `relay-private-refs`,
 //!   `own-private-refs-announced`, `initial-private-refs`;
 //! * an inventory announcement of the node that lists a private repository:
-//!   `inventory-lists-repo-made-private` (it was listed while public; only `initialize` cleans up),
-//!   `inventory-lists-private-repo` (it was never listed while public).
+//!   `inventory-lists-repo-made-private` (the repository was public earlier in the case: it was made private
+//!   while the node ran; only `initialize` cleans the listing up), `inventory-lists-private-repo` (it was
+//!   never public).
 
 #[path = "../../c10/src/engine.rs"]
 mod engine;
@@ -26,9 +27,14 @@ use verif_common::*;
 
 fn oracle(recs: &[StepRec], tags: &mut Vec<String>) -> Vec<(String, String)> {
     let mut viol: Vec<(String, String)> = vec![];
-    // repositories that were listed in an inventory announcement of the node while public
-    let mut listed_public: BTreeSet<u64> = BTreeSet::new();
+    // repositories that were public at some earlier point of the case (ground truth of the case text)
+    let mut was_public: BTreeSet<u64> = BTreeSet::new();
     for (j, r) in recs.iter().enumerate() {
+        for (rid, spec) in &r.repos {
+            if !spec.private {
+                was_public.insert(*rid);
+            }
+        }
         for w in &r.writes {
             if w.ann.kind == 'r' {
                 let Some(spec) = r.repos.get(&w.ann.repo) else { continue };
@@ -66,10 +72,8 @@ fn oracle(recs: &[StepRec], tags: &mut Vec<String>) -> Vec<(String, String)> {
                 for rid in &w.inv {
                     let private = r.repos.get(rid).map(|s| s.private).unwrap_or(false);
                     if private {
-                        let class = if listed_public.contains(rid) { "inventory-lists-repo-made-private" } else { "inventory-lists-private-repo" };
+                        let class = if was_public.contains(rid) { "inventory-lists-repo-made-private" } else { "inventory-lists-private-repo" };
                         viol.push((class.to_string(), format!("op {j}: inventory announcement {} of the node lists private repository {rid}", w.show())));
-                    } else {
-                        listed_public.insert(*rid);
                     }
                 }
                 if !w.inv.is_empty() {
